@@ -1084,6 +1084,14 @@ class Interp:
             from .mirparse import parse_operand
             c = s.operand(ctx, frame, caller, parse_operand(func), ln)
             r = yield from s.call_callable(ctx, c, list(args)); return r
+        if '::Target' in func and 'Deref>' in func:
+            # `<<P as Deref>::Target as Trait>::m` with P bound to Box<T> / Rc<T> / Arc<T> / &T at an enclosing call site: the projection is T
+            from .builtins import subst_type as _st0
+            def _proj(m_):
+                inner_ = _st0(ctx, m_.group(1).strip()) if ctx.tysubst else m_.group(1).strip()
+                mm_ = re.match(r'^(?:[\w]+::)*(?:Box|Rc|Arc)<(.*)>$', inner_) or re.match(r"^&(?:'\w+ )?(?:mut )?(.*)$", inner_)
+                return mm_.group(1).strip() if mm_ else m_.group(0)
+            func = re.sub(r'<([^<>]*(?:<[^<>]*>)?[^<>]*) as (?:[\w]+::)*Deref>::Target', _proj, func)
         g = strip_generics(func)
         tc = norm_trait_call(g)
         # 1. environment of the subjects (driver-supplied models)
